@@ -87,6 +87,9 @@ func (d *Data) loadXYImages(load *bulkLoadInfo) error {
 		timedLog := dvid.NewTimeLog()
 
 		zInBlock := load.offset.Value(2) % blockSize.Value(2)
+		if zInBlock < 0 {
+			zInBlock += blockSize.Value(2) // slices below z = 0
+		}
 		firstSlice := fileNum == 1
 		lastSlice := fileNum == len(load.filenames)
 		firstSliceInBlock := firstSlice || zInBlock == 0
